@@ -1,5 +1,467 @@
+/-
+  C16 — generators produce the graph family they name.
+  * complete_graph: the pair enumerations are exactly the unordered / ordered pairs of distinct nodes, each once;
+  * karate_club_graph: the adjacency table extracted from the *current* source (Generated/Karate.lean, regenerated
+    on every run) is 34 x 34, symmetric, zero on the diagonal and has 156 ones, i.e. 78 undirected edges;
+  * fast_gnp_random_graph: for EVERY sequence of geometric skips the model emits only pairs of distinct nodes in
+    range, in strictly increasing slot order - hence no self-loop and no repeated pair (the deterministic content of
+    the skipping scheme; the distribution itself is probability theory + library code, see DESIGN.md).
+-/
 import GraphrsModel.ObsGen
+import Mathlib.Tactic.Ring
 namespace Graphrs
-/-- the table extracted from the current source has 34 rows of 34 entries -/
-theorem C16_karate_shape : karateRows.length = 34 ∧ karateRows.all (fun r => r.length == 34) = true := by decide
+
+theorem C16_combos2_mem (n i j : Nat) : (i, j) ∈ combos2 n ↔ i < j ∧ j < n := by
+  simp only [combos2, List.mem_flatMap, List.mem_map, List.mem_filter, List.mem_range, Prod.mk.injEq,
+    decide_eq_true_eq]
+  constructor
+  · rintro ⟨a, ha, b, ⟨hb, hab⟩, rfl, rfl⟩; omega
+  · rintro ⟨h1, h2⟩; exact ⟨i, by omega, j, ⟨h2, h1⟩, rfl, rfl⟩
+
+private theorem nodup_pairs (n : Nat) (p : Nat → Nat → Bool) :
+    ((List.range n).flatMap fun i => ((List.range n).filter (p i)).map fun j => (i, j)).Nodup := by
+  unfold List.Nodup
+  rw [List.pairwise_flatMap]
+  refine ⟨fun i _ => ?_, ?_⟩
+  · rw [List.pairwise_map]
+    exact List.Pairwise.imp (fun h => by simpa using h) (List.Pairwise.filter _ List.nodup_range)
+  · refine List.Pairwise.imp ?_ (List.nodup_range (n := n))
+    intro a b hab x hx y hy
+    simp only [List.mem_map] at hx hy
+    obtain ⟨_, _, rfl⟩ := hx
+    obtain ⟨_, _, rfl⟩ := hy
+    intro h; exact hab (by simpa using congrArg Prod.fst h)
+
+theorem C16_combos2_nodup (n : Nat) : (combos2 n).Nodup := nodup_pairs n (fun i j => decide (j > i))
+
+theorem C16_perms2_mem (n i j : Nat) : (i, j) ∈ perms2 n ↔ i < n ∧ j < n ∧ i ≠ j := by
+  simp only [perms2, List.mem_flatMap, List.mem_map, List.mem_filter, List.mem_range, Prod.mk.injEq,
+    bne_iff_ne, ne_eq]
+  constructor
+  · rintro ⟨a, ha, b, ⟨hb, hab⟩, rfl, rfl⟩; exact ⟨ha, hb, fun h => hab h.symm⟩
+  · rintro ⟨h1, h2, h3⟩; exact ⟨i, h1, j, ⟨h2, fun h => h3 h.symm⟩, rfl, rfl⟩
+
+theorem C16_perms2_nodup (n : Nat) : (perms2 n).Nodup := nodup_pairs n (fun i j => j != i)
+
+
+
+private theorem addNodes_fresh (a : Abs) (l : List Nat) (hl : l.Nodup) (hf : ∀ x ∈ l, a.hasNode x = false) :
+    a.addNodes (l.map fun i => (⟨i, none⟩ : Node)) = { a with nodes := a.nodes ++ l.map fun i => (⟨i, none⟩ : Node) } := by
+  induction l generalizing a with
+  | nil => simp [Abs.addNodes]
+  | cons x l ih =>
+    have hnd := List.nodup_cons.mp hl
+    have hx := hf x (by simp)
+    have h1 : a.addNode ⟨x, none⟩ = { a with nodes := a.nodes ++ [⟨x, none⟩] } := by
+      simp [Abs.addNode, hx]
+    have := ih (a.addNode ⟨x, none⟩) hnd.2 (by
+      intro y hy
+      have hy' := hf y (by simp [hy])
+      have hne : x ≠ y := fun h => hnd.1 (h ▸ hy)
+      rw [h1]
+      simp only [Abs.hasNode, List.any_append, List.any_cons, List.any_nil] at hy' ⊢
+      simp [hy', hne])
+    simp only [Abs.addNodes, List.map_cons, List.foldl_cons] at this ⊢
+    rw [this, h1]; simp
+
+private theorem hasNode_range (n x : Nat) (es : List Edge) :
+    Abs.hasNode { nodes := (List.range n).map fun i => (⟨i, none⟩ : Node), edges := es } x = decide (x < n) := by
+  simp only [Abs.hasNode, List.any_map]
+  rw [Bool.eq_iff_iff]
+  simp [List.any_eq_true]
+
+private theorem addEdges_fresh (directed : Bool) (a : Abs) (ps : List (Nat × Nat))
+    (hloop : ∀ p ∈ ps, p.1 ≠ p.2) (hnode : ∀ p ∈ ps, a.hasNode p.1 = true ∧ a.hasNode p.2 = true)
+    (hcanon : ∀ p ∈ ps, directed = false → p.1 ≤ p.2)
+    (hfresh : ∀ p ∈ ps, ∀ e ∈ a.edges, Abs.sameKey directed e p.1 p.2 = false)
+    (hpw : ps.Pairwise fun p q => Abs.sameKey directed (Edge.tuple p.1 p.2) q.1 q.2 = false) :
+    Abs.addEdges (completeSpecs directed) a (ps.map fun p => Edge.tuple p.1 p.2)
+      = ({ a with edges := a.edges ++ ps.map fun p => Edge.tuple p.1 p.2 }, none) := by
+  induction ps generalizing a with
+  | nil => simp [Abs.addEdges]
+  | cons p ps ih =>
+    have hpw' := List.pairwise_cons.mp hpw
+    have hl := hloop p (by simp)
+    have hn := hnode p (by simp)
+    have hfr := hfresh p (by simp)
+    have hc : Abs.canon directed (Edge.tuple p.1 p.2) = Edge.tuple p.1 p.2 := by
+      cases directed
+      · have := hcanon p (by simp) rfl
+        have hng : ¬ ((Edge.tuple p.1 p.2).u > (Edge.tuple p.1 p.2).v) := by
+          show ¬ (p.1 > p.2); omega
+        simp only [Abs.canon, Edge.ordered, Bool.false_eq_true, if_false, if_neg hng]
+      · simp [Abs.canon]
+    have hdup : (a.edges.any fun e' => Abs.sameKey directed e' p.1 p.2) = false := by
+      rw [List.any_eq_false]; intro e he; simp [hfr e he]
+    have h1 : Abs.addEdge (completeSpecs directed) a (Edge.tuple p.1 p.2)
+        = ({ a with edges := a.edges ++ [Edge.tuple p.1 p.2] }, none) := by
+      have e1 : (Edge.tuple p.1 p.2).u = p.1 := rfl
+      have e2 : (Edge.tuple p.1 p.2).v = p.2 := rfl
+      simp only [Abs.addEdge, completeSpecs, e1, e2, hn.1, hn.2, hc]
+      simp [hl, hn.2]
+      intro x hx; exact hfr x hx
+    simp only [List.map_cons, Abs.addEdges, h1]
+    rw [ih]
+    · simp
+    · exact fun q hq => hloop q (by simp [hq])
+    · intro q hq; have := hnode q (by simp [hq]); simpa [Abs.hasNode] using this
+    · exact fun q hq => hcanon q (by simp [hq])
+    · intro q hq e he
+      simp only [List.mem_append, List.mem_singleton] at he
+      rcases he with he | rfl
+      · exact hfresh q (by simp [hq]) e he
+      · exact hpw'.1 q hq
+    · exact hpw'.2
+
+/-- the abstract machine, given the nodes 0..n-1 and the pair enumeration, stores every pair exactly as given -/
+theorem C16_complete_abs (n : Nat) (directed : Bool) :
+    Abs.addEdges (completeSpecs directed) (({} : Abs).addNodes ((List.range n).map fun i => (⟨i, none⟩ : Node)))
+        ((if directed then perms2 n else combos2 n).map fun p => Edge.tuple p.1 p.2) =
+      ({ nodes := (List.range n).map fun i => (⟨i, none⟩ : Node),
+         edges := (if directed then perms2 n else combos2 n).map fun p => Edge.tuple p.1 p.2 }, none) := by
+  rw [addNodes_fresh _ _ List.nodup_range (by intro x _; simp [Abs.hasNode])]
+  have hkey : ∀ p q : Nat × Nat, p ≠ q → (directed = false → p.1 < p.2 ∧ q.1 < q.2) →
+      Abs.sameKey directed (Edge.tuple p.1 p.2) q.1 q.2 = false := by
+    intro p q hne hlt
+    have e1 : (Edge.tuple p.1 p.2).u = p.1 := rfl
+    have e2 : (Edge.tuple p.1 p.2).v = p.2 := rfl
+    have h1 : ¬ (p.1 = q.1 ∧ p.2 = q.2) := fun h => hne (Prod.ext h.1 h.2)
+    cases directed
+    · have := hlt rfl
+      simp only [Abs.sameKey, e1, e2]
+      simp; omega
+    · simp only [Abs.sameKey, e1, e2]
+      simp; omega
+  have hnd : (if directed then perms2 n else combos2 n).Nodup := by
+    cases directed
+    · exact C16_combos2_nodup n
+    · exact C16_perms2_nodup n
+  have hmem : ∀ p ∈ (if directed then perms2 n else combos2 n),
+      p.1 < n ∧ p.2 < n ∧ p.1 ≠ p.2 ∧ (directed = false → p.1 < p.2) := by
+    intro p hp
+    cases directed
+    · have := (C16_combos2_mem n p.1 p.2).mp hp
+      exact ⟨by omega, by omega, by omega, fun _ => this.1⟩
+    · have := (C16_perms2_mem n p.1 p.2).mp hp
+      exact ⟨this.1, this.2.1, this.2.2, fun h => by simp at h⟩
+  rw [addEdges_fresh]
+  · simp
+  · exact fun p hp => (hmem p hp).2.2.1
+  · intro p hp
+    have := hmem p hp
+    simp only [List.nil_append, hasNode_range, decide_eq_true_eq]
+    exact ⟨this.1, this.2.1⟩
+  · intro p hp hd; have := (hmem p hp).2.2.2 hd; omega
+  · intro p _ e he; simp at he
+  · refine List.Pairwise.imp_of_mem ?_ hnd
+    intro p q hp hq hne
+    exact hkey p q hne (fun hd => ⟨(hmem p hp).2.2.2 hd, (hmem q hq).2.2.2 hd⟩)
+
+/-- the Zachary table in the source, as extracted on this run -/
+theorem C16_karate_table :
+    karateRows.length = 34 ∧ karateRows.all (fun r => r.length == 34) = true ∧
+    (List.range 34).all (fun i => (List.range 34).all fun j =>
+      ((karateRows[i]?.bind (·[j]?)) == (karateRows[j]?.bind (·[i]?)))) = true ∧
+    (List.range 34).all (fun i => (karateRows[i]?.bind (·[i]?)) == some 0) = true ∧
+    sumNat (karateRows.map sumNat) = 156 ∧ karateNodeCount = 34 := by
+  decide +kernel
+
+
+/-- slot number of a pair in the undirected scheme (lower triangle, row by row) -/
+def slotUnd (p : Int × Int) : Int := p.1 * (p.1 - 1) / 2 + p.2
+/-- slot number of a pair in the directed scheme (row-major) -/
+def slotDir (n : Int) (p : Int × Int) : Int := p.1 * n + p.2
+
+/-! ### G(n,p): helper lemmas
+
+  Loop invariants.  Undirected: `1 ≤ v`, `-1 ≤ w`, `v < n → w < v`, every emitted pair has slot `≤ slot (v, w)`;
+  the row loop preserves `slot (v, w)` (`tri (v+1) + (w - v) = tri v + w`) and the skip raises it by at least one.
+  Directed: `0 ≤ v`, `-1 ≤ w`, `v < n → w < n`; the row loop never lowers `v * n + w` and keeps `v ≠ w`.
+  Saturation: for `n ≤ i64Max + 1` (undirected) / `n ≤ i64Max` (directed) the additions `w + 1` never saturate
+  because `w < n`; for larger `n` the counter `w ≤ i64Max` can never carry `v` up to `n`, so the generator never
+  returns `some _` and the statements hold vacuously (`und_big`, `dir_big`). -/
+
+private theorem satAdd_le (a b : Int) : satAdd a b ≤ i64Max := by
+  unfold satAdd; split <;> omega
+private theorem satAdd_eq (a b : Int) (h : a + b ≤ i64Max) : satAdd a b = a + b := by
+  unfold satAdd; split <;> omega
+private theorem satAdd_ge (a b : Int) (ha : a ≤ i64Max) (hb : 0 ≤ b) : a ≤ satAdd a b := by
+  unfold satAdd; split <;> omega
+
+private def tri (v : Int) : Int := v * (v - 1) / 2
+private theorem tri_succ (v : Int) : tri (v + 1) = tri v + v := by
+  unfold tri
+  have : (v + 1) * (v + 1 - 1) = v * (v - 1) + v * 2 := by ring
+  rw [this, Int.add_mul_ediv_right _ _ (by decide)]
+private theorem slotUnd_eq (p : Int × Int) : slotUnd p = tri p.1 + p.2 := rfl
+
+private theorem undRow_spec (n : Int) : ∀ (fuel : Nat) (v w v' w' : Int),
+    gnpUndRow n fuel v w = (v', w') → 1 ≤ v →
+    v ≤ v' ∧ tri v' + w' = tri v + w ∧ (0 ≤ w → 0 ≤ w') ∧ (v ≤ n → v' ≤ n) ∧
+    (∀ M : Int, w ≤ M → v ≤ M + 1 → v' ≤ M + 1) ∧
+    (n - v < fuel → ¬ (w' ≥ v' ∧ v' < n)) := by
+  intro fuel
+  induction fuel with
+  | zero =>
+    intro v w v' w' h hv
+    simp only [gnpUndRow, Prod.mk.injEq] at h
+    obtain ⟨rfl, rfl⟩ := h
+    refine ⟨by omega, rfl, id, id, fun M _ h => h, ?_⟩
+    intro h; omega
+  | succ fuel ih =>
+    intro v w v' w' h hv
+    rw [gnpUndRow] at h
+    by_cases hc : w ≥ v ∧ v < n
+    · rw [if_pos (by simpa using hc)] at h
+      obtain ⟨h1, h2, h3, h4, h5, h6⟩ := ih (v + 1) (w - v) v' w' h (by omega)
+      rw [tri_succ] at h2
+      refine ⟨by omega, by omega, fun h => h3 (by omega), fun _ => h4 (by omega), ?_, fun h => h6 (by omega)⟩
+      intro M hM hvM
+      exact h5 M (by omega) (by omega)
+    · rw [if_neg (by simpa using hc)] at h
+      simp only [Prod.mk.injEq] at h
+      obtain ⟨rfl, rfl⟩ := h
+      exact ⟨by omega, rfl, id, id, fun M _ h => h, fun _ => hc⟩
+
+private theorem und_main (n : Int) (hn : n ≤ i64Max + 1) : ∀ (fuel : Nat) (skips : List Int) (v w : Int)
+    (acc es : List (Int × Int)),
+    (∀ k ∈ skips, 0 ≤ k) → 1 ≤ v → -1 ≤ w → (v < n → w < v) →
+    (∀ p ∈ acc, (0 ≤ p.2 ∧ p.2 < p.1 ∧ p.1 < n) ∧ slotUnd p ≤ tri v + w) →
+    acc.Pairwise (fun a b => slotUnd a < slotUnd b) →
+    gnpUndirected n fuel skips v w acc = some es →
+    (∀ p ∈ es, 0 ≤ p.2 ∧ p.2 < p.1 ∧ p.1 < n) ∧ es.Pairwise (fun a b => slotUnd a < slotUnd b) := by
+  intro fuel
+  induction fuel with
+  | zero => intro skips v w acc es _ _ _ _ _ _ h; simp [gnpUndirected] at h
+  | succ fuel ih =>
+    intro skips v w acc es hs hv hw hwv hacc hpw h
+    unfold gnpUndirected at h
+    by_cases hvn : v < n
+    · rw [if_pos hvn] at h
+      cases skips with
+      | nil => simp at h
+      | cons sk rest =>
+        simp only at h
+        have hsk := hs sk (by simp)
+        have hwlt := hwv hvn
+        have e1 : satAdd w 1 = w + 1 := satAdd_eq _ _ (by omega)
+        have hw1 : w + 1 ≤ satAdd (satAdd w 1) sk := by
+          rw [e1]; exact satAdd_ge _ _ (by omega) hsk
+        generalize satAdd (satAdd w 1) sk = w1 at h hw1
+        generalize hrow : gnpUndRow n (n.toNat + 1) v w1 = r at h
+        obtain ⟨v', w'⟩ := r
+        simp only at h
+        obtain ⟨h1, h2, h3, h4, _, h6⟩ := undRow_spec n _ v w1 v' w' hrow hv
+        have hexit := h6 (by omega)
+        have hw' := h3 (by omega)
+        refine ih rest v' w' _ es (fun k hk => hs k (by simp [hk])) (by omega) (by omega)
+          (fun h => by omega) ?_ ?_ h
+        · intro p hp
+          by_cases hv'n : v' < n
+          · rw [if_pos hv'n] at hp
+            rcases List.mem_append.mp hp with hp | hp
+            · have := hacc p hp
+              exact ⟨this.1, by omega⟩
+            · simp only [List.mem_singleton] at hp
+              subst hp
+              exact ⟨⟨hw', by omega, hv'n⟩, by rw [slotUnd_eq]⟩
+          · rw [if_neg hv'n] at hp
+            have := hacc p hp
+            exact ⟨this.1, by omega⟩
+        · by_cases hv'n : v' < n
+          · rw [if_pos hv'n, List.pairwise_append]
+            refine ⟨hpw, by simp, ?_⟩
+            intro a ha b hb
+            simp only [List.mem_singleton] at hb
+            subst hb
+            have := (hacc a ha).2
+            rw [slotUnd_eq (v', w')]; show slotUnd a < tri v' + w'; omega
+          · rw [if_neg hv'n]; exact hpw
+    · rw [if_neg hvn] at h
+      simp only [Option.some.injEq] at h
+      subst h
+      exact ⟨fun p hp => (hacc p hp).1, hpw⟩
+
+private theorem und_big (n : Int) (hn : i64Max + 1 < n) : ∀ (fuel : Nat) (skips : List Int) (v w : Int)
+    (acc : List (Int × Int)), 1 ≤ v → v ≤ i64Max + 1 → gnpUndirected n fuel skips v w acc = none := by
+  intro fuel
+  induction fuel with
+  | zero => intros; simp [gnpUndirected]
+  | succ fuel ih =>
+    intro skips v w acc hv hvM
+    unfold gnpUndirected; rw [if_pos (by omega)]
+    cases skips with
+    | nil => rfl
+    | cons sk rest =>
+      simp only
+      have hw1 := satAdd_le (satAdd w 1) sk
+      generalize satAdd (satAdd w 1) sk = w1 at hw1
+      generalize hrow : gnpUndRow n (n.toNat + 1) v w1 = r
+      obtain ⟨v', w'⟩ := r
+      obtain ⟨h1, _, _, _, h5, _⟩ := undRow_spec n _ v w1 v' w' hrow hv
+      exact ih rest v' w' _ (by omega) (h5 i64Max hw1 hvM)
+
+private theorem succ_mul' (v n : Int) : (v + 1) * n = v * n + n := by ring
+
+private theorem dirRow_spec (n : Int) : ∀ (fuel : Nat) (v w v' w' : Int),
+    gnpDirRow n fuel v w = (v', w') → 0 ≤ v → 0 ≤ w → v ≠ w →
+    v ≤ v' ∧ v * n + w ≤ v' * n + w' ∧ 0 ≤ w' ∧ v' ≠ w' ∧ (v ≤ n → v' ≤ n) ∧
+    (n - v < fuel → ¬ (v' < n ∧ n ≤ w')) := by
+  intro fuel
+  induction fuel with
+  | zero =>
+    intro v w v' w' h hv hw hne
+    simp only [gnpDirRow, Prod.mk.injEq] at h
+    obtain ⟨rfl, rfl⟩ := h
+    exact ⟨by omega, by omega, hw, hne, id, fun h => by omega⟩
+  | succ fuel ih =>
+    intro v w v' w' h hv hw hne
+    rw [gnpDirRow] at h
+    by_cases hc : v < n ∧ n ≤ w
+    · rw [if_pos (by simpa using hc)] at h
+      simp only at h
+      have hm := succ_mul' v n
+      by_cases hd : v + 1 = w - n
+      · rw [if_pos (by simpa using hd)] at h
+        obtain ⟨h1, h2, h3, h4, h5, h6⟩ := ih (v + 1) (w - n + 1) v' w' h (by omega) (by omega) (by omega)
+        exact ⟨by omega, by omega, h3, h4, fun _ => h5 (by omega), fun h => h6 (by omega)⟩
+      · rw [if_neg (by simpa using hd)] at h
+        obtain ⟨h1, h2, h3, h4, h5, h6⟩ := ih (v + 1) (w - n) v' w' h (by omega) (by omega) hd
+        exact ⟨by omega, by omega, h3, h4, fun _ => h5 (by omega), fun h => h6 (by omega)⟩
+    · rw [if_neg (by simpa using hc)] at h
+      simp only [Prod.mk.injEq] at h
+      obtain ⟨rfl, rfl⟩ := h
+      exact ⟨by omega, by omega, hw, hne, id, fun _ => hc⟩
+
+private theorem dir_main (n : Int) (hn : n ≤ i64Max) : ∀ (fuel : Nat) (skips : List Int) (v w : Int)
+    (acc es : List (Int × Int)),
+    (∀ k ∈ skips, 0 ≤ k) → 0 ≤ v → -1 ≤ w → (v < n → w < n) →
+    (∀ p ∈ acc, (0 ≤ p.1 ∧ p.1 < n ∧ 0 ≤ p.2 ∧ p.2 < n ∧ p.1 ≠ p.2) ∧ slotDir n p ≤ v * n + w) →
+    acc.Pairwise (fun a b => slotDir n a < slotDir n b) →
+    gnpDirected n fuel skips v w acc = some es →
+    (∀ p ∈ es, 0 ≤ p.1 ∧ p.1 < n ∧ 0 ≤ p.2 ∧ p.2 < n ∧ p.1 ≠ p.2) ∧
+      es.Pairwise (fun a b => slotDir n a < slotDir n b) := by
+  intro fuel
+  induction fuel with
+  | zero => intro skips v w acc es _ _ _ _ _ _ h; simp [gnpDirected] at h
+  | succ fuel ih =>
+    intro skips v w acc es hs hv hw hwv hacc hpw h
+    unfold gnpDirected at h
+    by_cases hvn : v < n
+    · rw [if_pos hvn] at h
+      cases skips with
+      | nil => simp at h
+      | cons sk rest =>
+        simp only at h
+        have hsk := hs sk (by simp)
+        have hwlt := hwv hvn
+        have e1 : satAdd w 1 = w + 1 := satAdd_eq _ _ (by omega)
+        have hw1 : w + 1 ≤ satAdd (satAdd w 1) sk := by
+          rw [e1]; exact satAdd_ge _ _ (by omega) hsk
+        have hw1' := satAdd_le (satAdd w 1) sk
+        generalize satAdd (satAdd w 1) sk = w1 at h hw1 hw1'
+        have hw2 : ∃ w2, (if (v == w1) = true then satAdd w1 1 else w1) = w2 ∧ w1 ≤ w2 ∧ v ≠ w2 := by
+          by_cases hd : v = w1
+          · rw [if_pos (by simpa using hd), satAdd_eq _ _ (by omega)]
+            exact ⟨_, rfl, by omega, by omega⟩
+          · rw [if_neg (by simpa using hd)]
+            exact ⟨_, rfl, by omega, hd⟩
+        obtain ⟨w2, e2, hw2, hne2⟩ := hw2
+        rw [e2] at h
+        generalize hrow : gnpDirRow n (n.toNat + 1) v w2 = r at h
+        obtain ⟨v', w'⟩ := r
+        simp only at h
+        obtain ⟨h1, h2, h3, h4, h5, h6⟩ := dirRow_spec n _ v w2 v' w' hrow hv (by omega) hne2
+        have hexit := h6 (by omega)
+        refine ih rest v' w' _ es (fun k hk => hs k (by simp [hk])) (by omega) (by omega)
+          (fun h => by omega) ?_ ?_ h
+        · intro p hp
+          by_cases hv'n : v' < n
+          · rw [if_pos hv'n] at hp
+            rcases List.mem_append.mp hp with hp | hp
+            · have := hacc p hp
+              exact ⟨this.1, by omega⟩
+            · simp only [List.mem_singleton] at hp
+              subst hp
+              exact ⟨⟨by omega, hv'n, h3, by omega, h4⟩, Int.le_refl _⟩
+          · rw [if_neg hv'n] at hp
+            have := hacc p hp
+            exact ⟨this.1, by omega⟩
+        · by_cases hv'n : v' < n
+          · rw [if_pos hv'n, List.pairwise_append]
+            refine ⟨hpw, by simp, ?_⟩
+            intro a ha b hb
+            simp only [List.mem_singleton] at hb
+            subst hb
+            have := (hacc a ha).2
+            show slotDir n a < v' * n + w'; omega
+          · rw [if_neg hv'n]; exact hpw
+    · rw [if_neg hvn] at h
+      simp only [Option.some.injEq] at h
+      subst h
+      exact ⟨fun p hp => (hacc p hp).1, hpw⟩
+
+private theorem dir_big (n : Int) (hn : i64Max < n) : ∀ (fuel : Nat) (skips : List Int) (w : Int)
+    (acc : List (Int × Int)), gnpDirected n fuel skips 0 w acc = none := by
+  intro fuel
+  induction fuel with
+  | zero => intros; simp [gnpDirected]
+  | succ fuel ih =>
+    intro skips w acc
+    have hM : (0 : Int) < i64Max := by unfold i64Max; omega
+    unfold gnpDirected; rw [if_pos (by omega)]
+    cases skips with
+    | nil => rfl
+    | cons sk rest =>
+      simp only
+      have hw2 : ∃ w2, (if ((0 : Int) == satAdd (satAdd w 1) sk) = true then satAdd (satAdd (satAdd w 1) sk) 1
+          else satAdd (satAdd w 1) sk) = w2 ∧ w2 ≤ i64Max := by
+        split
+        · exact ⟨_, rfl, satAdd_le _ _⟩
+        · exact ⟨_, rfl, satAdd_le _ _⟩
+      obtain ⟨w2, e2, hw2⟩ := hw2
+      rw [e2]
+      have hrow : gnpDirRow n (n.toNat + 1) 0 w2 = (0, w2) := by
+        rw [gnpDirRow, if_neg]
+        simp; omega
+      rw [hrow]
+      exact ih rest w2 _
+
+
+/-- **undirected G(n,p), every skip sequence**: every emitted pair (v, w) has 0 ≤ w < v < n, and pairs come in
+    strictly increasing slot order -/
+theorem C16_gnp_undirected_structure (n : Int) (skips : List Int) (es : List (Int × Int))
+    (hs : ∀ k ∈ skips, 0 ≤ k)
+    (h : gnpUndirected n (skips.length + 1) skips 1 (-1) [] = some es) :
+    (∀ p ∈ es, 0 ≤ p.2 ∧ p.2 < p.1 ∧ p.1 < n) ∧ es.Pairwise (fun a b => slotUnd a < slotUnd b) := by
+  by_cases hn : n ≤ i64Max + 1
+  · exact und_main n hn _ skips 1 (-1) [] es hs (by omega) (by omega) (by intro; omega) (by simp) (by simp) h
+  · rw [und_big n (by omega) _ skips 1 (-1) [] (by omega) (by unfold i64Max; omega)] at h
+    simp at h
+
+/-- **directed G(n,p), every skip sequence**: every emitted pair (v, w) has 0 ≤ v < n, 0 ≤ w < n, v ≠ w, and pairs
+    come in strictly increasing slot order -/
+theorem C16_gnp_directed_structure (n : Int) (skips : List Int) (es : List (Int × Int))
+    (hs : ∀ k ∈ skips, 0 ≤ k)
+    (h : gnpDirected n (skips.length + 1) skips 0 (-1) [] = some es) :
+    (∀ p ∈ es, 0 ≤ p.1 ∧ p.1 < n ∧ 0 ≤ p.2 ∧ p.2 < n ∧ p.1 ≠ p.2) ∧ es.Pairwise (fun a b => slotDir n a < slotDir n b) := by
+  by_cases hn : n ≤ i64Max
+  · exact dir_main n hn _ skips 0 (-1) [] es hs (by omega) (by omega) (by intro; omega) (by simp) (by simp) h
+  · rw [dir_big n (by omega)] at h
+    simp at h
+
+/-- hence no pair is repeated -/
+theorem C16_gnp_no_repeats (n : Int) (skips : List Int) (es : List (Int × Int)) (hs : ∀ k ∈ skips, 0 ≤ k) :
+    (gnpUndirected n (skips.length + 1) skips 1 (-1) [] = some es → es.Nodup) ∧
+    (gnpDirected n (skips.length + 1) skips 0 (-1) [] = some es → es.Nodup) := by
+  constructor
+  · intro h
+    exact ((C16_gnp_undirected_structure n skips es hs h).2).imp (fun hab heq => by rw [heq] at hab; omega)
+  · intro h
+    exact ((C16_gnp_directed_structure n skips es hs h).2).imp (fun hab heq => by rw [heq] at hab; omega)
+
+/-- non-vacuity: n = 4, skips hit slots 0, 2 and 5 of the lower triangle, then run off the end -/
+example : gnpUndirected 4 5 [0, 1, 2, 100] 1 (-1) [] = some [(1, 0), (2, 1), (3, 2)] := by
+  decide +kernel
+
 end Graphrs
